@@ -114,6 +114,10 @@ class C03(RT):
             # seeded C03-e: insert_hugr with the parent omitted inserts below the root (not as a second root that the
             # document lists as its own parent); once, and twice in a row after other nodes
             {"kind": "hist", "root": ["module"], "muts": [["insert", ["dfg", ["B"], ["B"]], list(INSERTED), None]]},
+            # ... next to the same insertion with parent = root and parent = a container added before
+            {"kind": "hist", "root": ["module"], "muts": [
+                ["insert", ["dfg", ["B"], ["B"]], list(INSERTED), 0], ["add_node", ["dfg", [], []], 0, None, None],
+                ["insert", ["dfg", ["B"], ["B"]], list(INSERTED), 4], ["insert", ["dfg", ["B"], ["B"]], list(INSERTED), None]]},
             {"kind": "hist", "root": ["dfg", ["B"], ["B"]], "muts": [
                 ["add_node", ["input", ["B"]], 0, None, None], ["add_node", ["output", ["B"]], 0, None, None],
                 ["insert", ["dfg", ["B"], ["B"]], list(INSERTED), None], ["insert", ["dfg", [], []], [], None],
@@ -144,8 +148,30 @@ class C03(RT):
         return o
 
     # -- literal
+    @staticmethod
+    def _not_nat(obs):
+        """a document with a negative node index, parent or offset cannot be written as the typed (nat) document of
+        coq/run/C02Run.v; it is a wire-format violation by itself"""
+        for o in [obs] + list(obs.get("mods", [])):
+            for key in ("doc", "doc2"):
+                d = o.get(key)
+                if not d:
+                    continue
+                if any(isinstance(p, int) and p < 0 for _, p in d["nodes"]):
+                    return True
+                if any(isinstance(x, int) and x < 0 for e in d["edges"] for port in e for x in port):
+                    return True
+        return False
+
     def literal(self, case, obs, ctx, count=True):
-        base = super().literal(case, obs, ctx)
+        if self._not_nat(obs):
+            # keep the JSON side (both schema validators and json_index_sane still judge the text); the typed part
+            # is replaced by a case whose monitor fails
+            ctx.stats["documents_with_negative_indices"] = ctx.stats.get("documents_with_negative_indices", 0) + 1
+            base = "(CExt false false)"
+            obs = {k: v for k, v in obs.items() if k not in ("a", "mods")}
+        else:
+            base = super().literal(case, obs, ctx)
         st = ctx.stats.setdefault("coq_schema", {"documents": 0, "bytes": 0, "over_size_cap_python_only": 0,
                                                  "unprintable_python_only": 0, "ties": 0, "package_ties": 0,
                                                  "literal_bytes": 0, "validator_disagreements_among_failing_cases": 0,
